@@ -99,7 +99,8 @@ def build_layer(case, conns, neurs):
                                feedback_out_transform=mk_tr(t[2]), lateral_in_transform=mk_itr(it[0]),
                                feedback_in_transform=mk_itr(it[1]),
                                feedfwd_connection_name=cn[0], lateral_connection_name=cn[1],
-                               feedback_connection_name=cn[2], feedfwd_neuron_name=nn[0], feedback_neuron_name=nn[1])
+                               feedback_connection_name=cn[2], feedfwd_neuron_name=nn[0], feedback_neuron_name=nn[1],
+                               trainable_feedback=bool(case.get("trainable", False)))
     raise AssertionError(kind)
 
 
